@@ -121,6 +121,16 @@ def gen_history(rng, maxlen=12, from_ctor=False):
             rng.shuffle(free)
             for i, o in enumerate(olds):
                 names.append(free.pop() if free and rng.random() < 0.5 else o)
+            if len(olds) >= 2 and rng.random() < 0.4:
+                # a permutation of the current names (swap / rotation): an earlier axis takes the name a later one has now
+                names = list(olds)
+                if rng.random() < 0.5:
+                    i, j = rng.sample(range(len(names)), 2)
+                    names[i], names[j] = names[j], names[i]
+                else:
+                    names = names[1:] + names[:1]
+                    if free and rng.random() < 0.5:
+                        names[-1] = free.pop()
             ops.append({"op": "set_dims", "names": names})
             m = dict(zip(olds, names))
             for a in sim.axes:
@@ -285,6 +295,13 @@ class C13(Prop):
                     p.append("reject_not_restored")
             if op["op"] == "set" and o["err"] is not None and o["err"] != "value":
                 p.append("errclass")
+            # a changed axis name is immediately visible from the dataset (and, names being shared objects, from the variables)
+            if op["op"] == "set_dims" and o["err"] is None and len(set(op["names"])) == len(op["names"]) and o["dims"] != op["names"]:
+                p.append("rename_not_visible")
+            if op["op"] == "rename_axis" and o["err"] is None and prev is not None and op["new"] not in prev["dims"]:
+                pos = prev["dims"].index(op["d"][1]) if op["d"][0] == "name" and op["d"][1] in prev["dims"] else (op["d"][1] if op["d"][0] == "pos" else None)
+                if pos is not None and 0 <= pos < len(o["dims"]) and o["dims"][pos] != op["new"]:
+                    p.append("rename_not_visible")
             # ---- correspondence with the model
             m = []
             if (o["err"] is None) != (l["err"] is None):
